@@ -10,7 +10,7 @@ sequences of bounded length.
 
 Binding (spec -> code): for every family REAL tiny networks / optimisers are built the way the
 algorithm builds them (create_*_state where it exists, nnx.clone for targets, TD7's
-DeterministicSALEPolicy views, SAC's EntropyControl), and the graph is covered depth first:
+DeterministicSALEPolicy views, SAC's EntropyControl), and the graph is covered breadth first:
 at every reached model state every action label enabled there is executed ONCE on the real
 objects (the real routine, real batch), every component is digested bit for bit, projected to
 content ids and the resulting state must be one of the successors TLC allows for that label.
@@ -29,7 +29,7 @@ import os
 import time
 import traceback
 import types
-from collections import OrderedDict
+from collections import OrderedDict, deque
 from functools import partial
 
 import numpy as np
@@ -145,9 +145,11 @@ class Agent:
         self.walk()
         owner = {}
         for c in self.order:
-            for _, v in self.lv[c]:
+            for vpath, v in self.lv[c]:
                 if id(v) in owner:
-                    raise tlc.MachineryError(f"{self.family}: components {owner[id(v)]} and {c} share an nnx.Variable")
+                    # the components come from the repository's own constructors (create_*_state, nnx.clone):
+                    # an update of one would be an update of the other through the alias
+                    raise Deviation(f"{self.family}:components {owner[id(v)]} and {c} share an nnx.Variable", f"{self.family} ({self.variant}): components {owner[id(v)]} and {c} share the nnx.Variable {vpath}; an update of one changes the other through the alias")
                 owner[id(v)] = c
         for name, view in self.views.items():
             stray = [p for p, v in leaves(view) if id(v) not in owner]
@@ -306,7 +308,7 @@ def _actor_critic(family, variant, seed, double_q):
         ag.ops["train_step_with_loss(ddpg_loss)"] = lambda a: _train_step("ddpg_loss")(st.q_optimizer, q, qt, pt, batch, GAMMA)
         ag.evals["ddpg_loss"] = lambda: _jit(L.ddpg_loss)(q, qt, pt, batch, GAMMA)
         ag.evals["mse_continuous_action_value_loss"] = lambda: _jit(L.mse_continuous_action_value_loss)(batch.observation, batch.action, batch.reward, q)
-        ag.acts["policy_target"] = lambda: _jit(lambda m, o: m(o))(pt, batch.observation)
+        ag.acts["policy_target"] = lambda: _jit(_call_module)(pt, batch.observation)
     return ag
 
 
@@ -667,7 +669,7 @@ def execute(ag, op, args):
 
 
 def cover(G, ag, on_violation, stats):
-    """Depth-first cover of the model graph along the REAL behaviour: in every reached state every
+    """Cover of the model graph along the REAL behaviour: in every reached state every
     enabled label is executed once on the real objects (state restored before each), the projected
     post-state must be among TLC's successors for the label; continue from the real post-state."""
     root = G.roots()[0]
@@ -676,9 +678,9 @@ def cover(G, ag, on_violation, stats):
     if canon(p0) != root:
         raise tlc.MachineryError(f"{ag.family}/{ag.variant}: initial projection {p0} differs from the model's initial state {G.state[root]}")
     visited = {root}
-
-    def visit(k, path):
-        s = ag.snap()
+    queue = deque([(root, ag.snap(), [])])
+    while queue:  # breadth first: a deviation is reported with a shortest call sequence
+        k, s, path = queue.popleft()
         for (op, cargs), posts in labels_of(G, k).items():
             args = json.loads(cargs)
             ag.restore(s)
@@ -699,10 +701,7 @@ def cover(G, ag, on_violation, stats):
                     stats["zero"] += 1
             if k2 not in visited:
                 visited.add(k2)
-                visit(k2, path + [step])
-        ag.restore(s)
-
-    visit(root, [])
+                queue.append((k2, ag.snap(), path + [step]))
     stats["states"] += len(visited)
     return visited
 
@@ -790,6 +789,15 @@ def binding_canaries(G, meta, seed):
     cover(G, ag, col, _stats())
     if not any("hard_target_net_update(q, q_target):" in k for k, _, _ in col.found):
         raise tlc.MachineryError("binding canary: a target update that does not copy is not noticed")
+    # two components that are one object must be rejected when the agent is bound
+    ag = build("DQN", "mlp", seed)
+    ag.comps["q_target"] = ag.comps["q"]
+    try:
+        ag.bind(meta)
+    except Deviation:
+        pass
+    else:
+        raise tlc.MachineryError("binding canary: aliased components not noticed")
     # corrupted expectation: remove the real successor from the model's set
     ag = make_agent("DQN", "mlp", seed, meta)
     root = G.roots()[0]
@@ -868,6 +876,9 @@ def _run_fn(rep, quick, depth, futs, t0):
                     ag = make_agent(fam, variant, seed, meta)
                 except tlc.MachineryError:
                     raise
+                except Deviation as dv:
+                    on_violation(dv, [])
+                    continue
                 except Exception as ex:  # noqa: BLE001 - the repository's own constructors failed
                     rep.violation(f"{fam}:construction raises {type(ex).__name__}", f"{fam} ({variant}): building the components raises {type(ex).__name__}: {str(ex)[:200]}", {"part": "fn", "family": fam, "variant": variant, "seed": seed, "path": []})
                     continue
@@ -879,10 +890,11 @@ def _run_fn(rep, quick, depth, futs, t0):
         for k, v in st["by_op"].items():
             total["by_op"][f"{fam}:{k}"] = v
         nontrivial += sum(1 for k, es in G.out.items() for (op, a, e, k2) in es if op not in SELF_LOOPS)
-        if fam in ("TD7", "SAC"):
-            e = next((e for k, es in G.out.items() for e in es if e[0] in ("td7._train_step", "_update_entropy_coefficient")), None)
-            if e:
-                rep.sample({"family": fam, "op": e[0], "args": e[1], "post": G.state[e[3]]["ver"]})
+        want = {"DQN": "train_step_with_loss(ddqn_per_loss)", "SAC": "_update_entropy_coefficient", "TD7": "td7._train_step", "MRQ": "update_critic_and_policy"}.get(fam)
+        hit = [(k, e) for k, es in G.out.items() for e in es if e[0] == want]
+        if hit:
+            k, e = hit[len(hit) // 2]
+            rep.sample({"family": fam, "pre": G.state[k]["ver"], "op": e[0], "args": e[1], "one allowed post": G.state[e[3]]["ver"]})
     timing["replay_done_s"] = round(time.time() - t0, 1)
 
     # TLC verdicts
@@ -911,7 +923,7 @@ def _run_fn(rep, quick, depth, futs, t0):
     rep.rule = (
         "TLC enumerates the reachable state graph of Components (content-id vector of all components) for each of 9 algorithm families over all sequences of "
         f"update / target / composed-train-step calls of length <= MaxCalls ({depth}) with batch kind in {{generic, zero-gradient}}, loss evaluations and acting calls enabled in every state; "
-        "the real routines are executed depth first along the real behaviour: every label enabled in a reached state once, all components digested bit for bit and the projected "
+        "the real routines are executed along the real behaviour (breadth first): every label enabled in a reached state once, all components digested bit for bit and the projected "
         "state compared with the successors TLC allows for that label; a case is non-trivial when it is an update / target / train-step call (counted: executed on real objects)"
     )
     rep.extra["c05_fn_families"] = per_family
@@ -935,7 +947,11 @@ def replay_fn(d, rep=None):
     fam, variant, seed, path = d["family"], d["variant"], d["seed"], d["path"]
     n = sum(1 for s in path if s["op"] not in SELF_LOOPS)
     _, meta, G = gen_graph(fam, max(n, 1), "c05rep")
-    ag = make_agent(fam, variant, seed, meta)
+    try:
+        ag = make_agent(fam, variant, seed, meta)
+    except Deviation as dv:
+        print("  ", dv.what)
+        return 1
     k = G.roots()[0]
     ag.ids = {}
     print(fam, variant, "seed", seed, "initial", ag.project(0)["ver"])
